@@ -18,7 +18,9 @@ RULE = (
     "leaf = sum over uses of (c_u + 0.1 cos(S)) C_u; structure check vspace(grad) == vspace(arg); primal equals the plain run; "
     "forward mode where rules exist. Container-valued outputs via make_vjp. Flatten: unflatten(flatten(v)) == v, "
     "flatten(unflatten(w)) == w, both linear, flatten(grad f (v)) == grad(f o unflatten)(flatten v). Non-trivial = depth >= 2 or an "
-    "access through slice / concatenation / dict method / re-packing; distinct by (structure, program)."
+    "access through slice / concatenation / dict method / re-packing; distinct by (structure, program). levels: sequences traced at different levels of a nested "
+    "differentiation combined by + / slices / re-packing (closed-form second derivative, all four mode pairs). mutated_between: one list / dict object differentiated, "
+    "a leaf replaced in place by a value of another shape, differentiated again (leaf shapes and values follow the current contents)."
 )
 
 
@@ -408,9 +410,220 @@ def flatten_body(c):
     return ok(nontrivial=depth_of(struct) >= 1, key=json.dumps(struct), labels=[f"depth={depth_of(struct)}", "flatten"], sample=sample)
 
 
+def levels_body(c):
+    """Sequences traced at DIFFERENT levels of a nested differentiation, combined: p (two arrays) is the outer argument, q (one or two arrays)
+    the inner one; comb = p + q, q + p, a slice of p + q, plain + p + q, a re-packed mix ...  With S = sum_i sum(C_i * comb_i) the inner
+    function is 0.5 S^2, so grad_q = S C_q and h(p) = sum_j sum(W_j * grad_q_j) = S * K with K = sum_j sum(W_j C_qj): dh/dp_i = K C_pi for
+    every member of p that reached comb (zero otherwise).  Which member sits where is read off the same expression on plain tuples of names."""
+    import autograd
+    import autograd.numpy as anp
+    from autograd.builtins import list as ab_list, tuple as ab_tuple
+
+    vseed = c.seed()
+    seqt = c.choice(["tuple", "list"])
+    nq = c.int(1, 2)
+    how = c.choice(["outer+inner", "inner+outer", "outer_slice+inner", "plain+outer+inner", "outer+inner+plain", "repack_mixed", "inner+outer_slice", "outer+outer+inner", "repack_only"])
+    # (forward mode has no rule for + on traced sequences: those cells fail loudly and are drawn less often)
+    outer_mode, inner_mode = c.choice(["rr", "rr", "rr", "rr", "rf", "fr", "ff"]) if how != "repack_only" else c.choice(["rr", "rf", "fr", "ff"])
+    arrs, _ = values.generic(vseed, [(3,)] * (2 + nq + 1 + 6 + nq), -1.5, 1.5)
+    mk = tuple if seqt == "tuple" else list
+    p0 = mk(arrs[:2])
+    q0 = mk(arrs[2:2 + nq])
+    extra = arrs[2 + nq]
+    Cs = arrs[3 + nq:9 + nq]
+    Ws = arrs[9 + nq:9 + 2 * nq]
+    sample = {"seq": seqt, "nq": nq, "how": how, "outer_mode": outer_mode, "inner_mode": inner_mode, "vseed": vseed}
+    c.features.update(how=how, seq=seqt, nq=nq, modes=outer_mode + inner_mode)
+    bucket = lambda k: f"C12|levels|{how}|{k}"
+
+    def comb(p, q, plain, pack):
+        if how == "outer+inner":
+            return p + q
+        if how == "inner+outer":
+            return q + p
+        if how == "outer_slice+inner":
+            return p[1:] + q
+        if how == "inner+outer_slice":
+            return q + p[:1]
+        if how == "plain+outer+inner":
+            return plain + p + q
+        if how == "outer+inner+plain":
+            return p + q + plain
+        if how == "outer+outer+inner":
+            return p + p + q
+        if how == "repack_only":
+            return pack([q[0], p[1], p[0], q[-1]])
+        return pack([q[0], p[1]]) + p[0:1]
+
+    names = comb(mk(["p0", "p1"]), mk(["q%d" % j for j in range(nq)]), mk(["x"]), mk)
+    if len(names) > len(Cs):
+        return Outcome("numpy_rejects", kind="too many members", sample=sample)
+
+    def inner(p, q):
+        pack = ab_tuple if seqt == "tuple" else ab_list
+        members = comb(p, q, mk([extra]), pack)
+        S = 0.0
+        for i, m in enumerate(members):
+            S = S + anp.sum(Cs[i] * m)
+        return 0.5 * S * S
+
+    def h(p):
+        if inner_mode == "r":
+            gq = autograd.grad(inner, 1)(p, q0)
+        else:
+            # forward mode, one unit direction per entry of q: the gradient assembled column by column
+            cols = []
+            for j in range(nq):
+                col = []
+                for k in range(3):
+                    tang = mk([onp.eye(3)[k] * (1.0 if jj == j else 0.0) for jj in range(nq)])
+                    col.append(autograd.make_jvp(lambda q_: inner(p, q_))(q0)(tang)[1])
+                cols.append(col)
+            gq = cols
+        tot = 0.0
+        for j in range(nq):
+            if inner_mode == "r":
+                tot = tot + anp.sum(Ws[j] * gq[j])
+            else:
+                for k in range(3):
+                    tot = tot + Ws[j][k] * gq[j][k]
+        return tot
+
+    K = sum(float(onp.sum(Ws[j] * Cs[i])) for i, nm in enumerate(names) for j in range(nq) if nm == "q%d" % j)
+    want = [sum((Cs[i] for i, nm in enumerate(names) if nm == "p%d" % k), onp.zeros(3)) * K for k in range(2)]
+    try:
+        if outer_mode == "r":
+            got = autograd.grad(h)(p0)
+            got = [onp.asarray(got[0]), onp.asarray(got[1])]
+        else:
+            got = [onp.zeros(3), onp.zeros(3)]
+            for k in range(2):
+                for e in range(3):
+                    tang = mk([onp.eye(3)[e] * (1.0 if kk == k else 0.0) for kk in range(2)])
+                    got[k][e] = float(autograd.make_jvp(h)(p0)(tang)[1])
+    except Exception as e:
+        if not from_autograd(e):
+            raise
+        if isinstance(e, NotImplementedError) and "not defined" in str(e):
+            return raised(e, "levels", sample=sample)
+        return fail("unexpected_exception", describe_exc(e), bucket("exception"), sample=sample)
+    for k in range(2):
+        if got[k].shape != (3,) or not onp.allclose(got[k], want[k], rtol=1e-11, atol=1e-12):
+            return fail("wrong_value", f"d/dp[{k}] of the inner gradient is {got[k].tolist()}, expected {want[k].tolist()} (members of the combined sequence: {list(names)})",
+                        bucket("value"), sample=sample)
+    return ok(nontrivial=True, key=json.dumps([seqt, nq, how, outer_mode, inner_mode]), labels=["levels", "how=" + how, "modes=" + outer_mode + inner_mode], sample=sample)
+
+
+def mutated_body(c):
+    """A caller keeps ONE list / dict of parameters, differentiates, replaces a leaf of that very object in place by a value of another shape
+    (vector -> scalar, (2, 3) -> (3,), ...), and differentiates again: the second gradient is the gradient at the CURRENT contents - every leaf
+    of it has the shape of the current leaf and the value k_i cos(leaf_i)."""
+    import autograd
+    import autograd.numpy as anp
+
+    vseed = c.seed()
+    kind = c.choice(["list", "dict", "tuple_of_list", "dict_of_list", "list_of_dict"])
+    nleaf = c.int(2, 4)
+    shapes_pool = [(), (3,), (2, 3), (1, 3), (1,)]
+    shapes = [shapes_pool[c.int(0, len(shapes_pool) - 1)] for _ in range(nleaf)]
+    rep_at = c.int(0, nleaf - 1)
+    new_shape = c.choice([s_ for s_ in shapes_pool if s_ != shapes[rep_at]])
+    access = c.choice(["index", "iterate"])
+    other_between = c.chance(1, 4)
+    rounds = c.int(1, 2)
+    arrs, _ = values.generic(vseed, shapes + [new_shape, (2,)], -1.4, 1.4)
+    leaves = [float(a) if a.shape == () and vseed % 2 else a for a in arrs[:nleaf]]
+    new_leaf = arrs[nleaf]
+    ks = [0.5 + 0.75 * i for i in range(nleaf)]
+    sample = {"kind": kind, "shapes": [list(s_) for s_ in shapes], "replace": rep_at, "new_shape": list(new_shape), "access": access, "other_between": other_between, "vseed": vseed}
+    c.features.update(kind=kind, access=access, other_between=other_between, old_shape=list(shapes[rep_at]), new_shape=list(new_shape))
+    bucket = lambda k: f"C12|mutated|{kind}|{k}"
+    keys = ["w", "b", "z", "a"][:nleaf]
+    if kind == "list":
+        params, inner = list(leaves), None
+    elif kind == "dict":
+        params, inner = dict(zip(keys, leaves)), None
+    elif kind == "tuple_of_list":
+        inner = list(leaves)
+        params = (inner, 2.5)
+    elif kind == "dict_of_list":
+        inner = list(leaves)
+        params = {"layers": inner, "scale": 2.5}
+    else:
+        inner = dict(zip(keys, leaves))
+        params = [inner, 2.5]
+    holder = params if inner is None else inner
+
+    def get_inner(v):
+        if kind in ("list", "dict"):
+            return v
+        if kind == "tuple_of_list":
+            return v[0]
+        if kind == "dict_of_list":
+            return v["layers"]
+        return v[0]
+
+    def f(v):
+        h_ = get_inner(v)
+        tot = 0.0
+        if isinstance(holder, dict):
+            if access == "index":
+                for i, k_ in enumerate(keys):
+                    tot = tot + ks[i] * anp.sum(anp.sin(h_[k_]))
+            else:
+                for i, k_ in enumerate(h_):
+                    tot = tot + ks[keys.index(k_)] * anp.sum(anp.sin(h_[k_]))
+        else:
+            if access == "index":
+                for i in range(nleaf):
+                    tot = tot + ks[i] * anp.sum(anp.sin(h_[i]))
+            else:
+                for i, leaf in enumerate(h_):
+                    tot = tot + ks[i] * anp.sum(anp.sin(leaf))
+        return tot
+
+    def current():
+        return [holder[k_] for k_ in keys] if isinstance(holder, dict) else list(holder)
+
+    def check(tag):
+        g = autograd.grad(f)(params)
+        gl = get_inner(g)
+        gl = [gl[k_] for k_ in keys] if isinstance(holder, dict) else list(gl)
+        for i, (gv, lv) in enumerate(zip(gl, current())):
+            want = ks[i] * onp.cos(onp.asarray(lv))
+            if onp.shape(gv) != onp.shape(lv):
+                return fail("wrong_space", f"{tag}: gradient leaf {i} has shape {onp.shape(gv)}, the argument's leaf has shape {onp.shape(lv)}", bucket("shape"), sample=sample)
+            if not onp.allclose(onp.asarray(gv), want, rtol=1e-12, atol=1e-13):
+                return fail("wrong_value", f"{tag}: gradient leaf {i} is {onp.asarray(gv).tolist()}, expected {want.tolist()}", bucket("value"), sample=sample)
+        return None
+
+    try:
+        err = check("first differentiation")
+        if err:
+            return err
+        for r in range(rounds):
+            val = new_leaf if r == 0 else leaves[rep_at]
+            if isinstance(holder, dict):
+                holder[keys[rep_at]] = val
+            else:
+                holder[rep_at] = val
+            if other_between:
+                autograd.grad(lambda t: anp.sum(t[0] * t[1]))([arrs[nleaf + 1], 2.0])
+            err = check(f"after replacing leaf {rep_at} in place (round {r})")
+            if err:
+                return err
+    except Exception as e:
+        if not from_autograd(e):
+            raise
+        return fail("unexpected_exception", describe_exc(e), bucket("exception"), sample=sample)
+    return ok(nontrivial=True, key=json.dumps([kind, [list(s_) for s_ in shapes], rep_at, list(new_shape), access, other_between]), labels=["mutated", "kind=" + kind], sample=sample)
+
+
 PROP = Prop("C12", [
     Test("programs", program_body, quick=8000, thorough=40000, shard_size=250),
     Test("flatten", flatten_body, quick=2500, thorough=10000, shard_size=200),
+    Test("levels", levels_body, quick=600, thorough=4000, shard_size=100),
+    Test("mutated_between", mutated_body, quick=800, thorough=5000, shard_size=200),
 ], RULE, assumptions=[
     "leaf routing computed by running the same access program on plain Python containers of integer ids",
 ])
